@@ -62,6 +62,10 @@ import Sdmmc.Props.C18Gen
 import Sdmmc.Props.C18GenEnt
 import Sdmmc.Props.C18GenM
 import Sdmmc.Props.C19Gen
+import Sdmmc.Props.C17GenLfn
+import Sdmmc.Props.C06GenMgr
+import Sdmmc.Props.C03GenMgr
+import Sdmmc.Props.C15GenM2
 
 namespace Sdmmc.Props.Index
 
@@ -139,7 +143,13 @@ theorem C10_headline : type_of% @C10Main2.C10_main := @C10Main2.C10_main
 call failed answers an error (never `Ok`, a panic or a hang); handles stay usable and closable; read-only calls retried
 after a transient fault answer correctly; no failed call duplicates a name; uninvolved files (and other volumes) are intact.
 PARTIAL (`Props/C11Main2.lean`): clause by clause there — in short, histories continuing after certain failed calls on a
-file the failure damaged, and `get_root_volume_label`'s retry, are not covered. -/
+file the failure damaged, and `get_root_volume_label`'s retry, are not covered.
+DELIVERED AFTER THE HEADLINE (they close items of its gap list; read them next to it): `Props/C11Mount.lean` — the mount
+under a fault schedule, histories that mount, unmount and mount again (`mount_under_faults`,
+`history_under_faults_with_mounts_partial`); `Props/C11MultiHist.lean` — histories under faults with SEVERAL open volumes
+(`history_under_faults_multi_partial`, `fault_on_one_volume_history_partial`; one call: `Props/C11Multi.lean`);
+`Props/C11HistW.lean` — the excluded call itself: the excursion through a DAMAGED file restores the invariant
+(`excursion_restores_invariant`, `history_with_excursion_W_partial`). -/
 theorem C11_headline : type_of% @C11Main2.C11_main2_partial := @C11Main2.C11_main2_partial
 
 /-! ## The SD-card driver (SPI mode) -/
@@ -200,12 +210,13 @@ theorem C19_headline : type_of% @C19Main.C19_main := @C19Main.C19_main
 
 /-! ## Which Rust functions are tied to the model by proof
 
-`Sdmmc/Gen/Funs.lean` (pure functions), `Gen/FunsM.lean` (FAT level, monadic), `Gen/FunsMgr.lean` (`VolumeManager`),
-`Gen/FunsSd.lean` … are REGENERATED FROM THE CRATE'S SOURCE TEXT by the translator; the theorems below say that a translated
-function equals the function of the hand-written model (`Sdmmc/Model`) the properties are proved about — `_eq`: equal as
-functions (for loops: given enough fuel); `_eq_partial`: equal under the hypothesis stated at the theorem (typically: the
-walk does not run out of fuel / the directory chain is sound).  One line per Props module: the Rust items, then the headline
-equalities (each module has more; open it). -/
+`Sdmmc/Gen/Funs.lean` (pure functions), `Gen/FunsM.lean`, `FunsDir.lean`, `FunsEnt.lean`, `FunsInfo.lean` (FAT level),
+`Gen/FunsMgr.lean`, `FunsMgr2.lean` (`VolumeManager`), `Gen/FunsWrap.lean` (RAII wrappers), `Gen/FunsName.lean`,
+`Gen/FunsSd.lean` are REGENERATED FROM THE CRATE'S SOURCE TEXT on every run (`tools/extract.py`; not committed); the
+theorems below say that a translated function equals the function of the hand-written model (`Sdmmc/Model`) the properties
+are proved about — `_eq`: equal as functions (for loops: given enough fuel); `_eq_partial`: equal under the hypothesis
+stated at the theorem (typically: the walk does not run out of fuel / the directory chain is sound).  One line per Props
+module: the Rust items, then the headline equalities (each module has more; open it). -/
 
 section Ties
 
@@ -257,6 +268,11 @@ example := @C15Gen.total_clusters_eq
 example := @C15Gen.fat32_first_data_block_eq
 example := @C15GenLayout.parse_volume_layout
 example := @C15GenLayout.fat_type_boundaries
+-- fat/info.rs: `InfoSector::create_from_bytes`, `free_clusters_count`, `next_free_cluster`; the second half of `parse_volume`
+example := @C15GenM2.info_parse_eq
+example := @C15GenM2.free_count_eq
+example := @C15GenM2.next_free_eq
+example := @C15GenM2.parse_volume_info_binding
 
 /-! ### fat/ondiskdirentry.rs -/
 -- `OnDiskDirEntry::{is_end, is_valid, is_lfn, matches, lfn_contents}`
@@ -297,6 +313,10 @@ example := @C06GenM.find_directory_entry_eq_partial
 example := @C06GenIter.iterate_fat16_eq_partial
 example := @C06GenIter.iterate_fat32_eq_partial
 example := @C06GenIter.iterate_dir_eq_partial
+-- the local `SeqState::update` and `iterate_dir_lfn`
+example := @C17GenLfn.seq_update_eq
+example := @C17GenLfn.fold_eq
+example := @C17GenLfn.iterate_dir_lfn_eq_partial
 -- `write_new_directory_entry`, `make_dir`
 example := @C09GenM.write_new_directory_entry_eq_partial
 example := @C09GenM.make_dir_eq_partial
@@ -340,7 +360,9 @@ example := @C08GenWrap.dir_close_eq
 example := @C08GenWrap.volume_close_eq
 example := @C08GenWrap.drop_is_close_swallowed
 example := @C08GenWrap.change_dir_eq
-example := @C08GenWrap.pass_through_model
+example := @C08GenWrap.find_directory_entry_eq
+example := @C08GenWrap.make_dir_in_dir_eq
+example := @C08GenWrap.pass_through
 
 /-! ### volume_mgr.rs -/
 -- the handle generator, `get_volume_by_id` / `get_dir_by_id` / `get_file_by_id`, `file_is_open`, `has_open_handles`,
@@ -372,6 +394,15 @@ example := @C01GenWrite.write_eq
 -- `flush_file`, `close_file`
 example := @C02GenM.flush_file_eq
 example := @C02GenM.close_file_eq
+-- `find_directory_entry`, `iterate_dir`, `iterate_dir_lfn`, `get_root_volume_label` (with the `Directory` wrapper it opens,
+-- lists and drops)
+example := @C06GenMgr.find_directory_entry_eq
+example := @C06GenMgr.iterate_dir_eq
+example := @C06GenMgr.iterate_dir_lfn_eq
+example := @C06GenMgr.get_root_volume_label_eq
+example := @C06GenMgr.directory_wrapper
+-- `make_dir_in_dir`
+example := @C03GenMgr.make_dir_in_dir_eq
 
 end Ties
 
